@@ -324,3 +324,18 @@ func WriteOld(keys []string, vals []uint32, f Flavour) ([]byte, [2]int) {
 
 // OldNodeCount returns the number of nodes of the old trie for keys.
 func OldNodeCount(keys []string) int32 { return buildOld(keys).nodeCnt }
+
+// OldShape reports, for the pre-0.5.10 trie of keys, the node count and the
+// highest node id that is an inner node, carries a step, and is a leaf (-1 if
+// none): the positions whose residues modulo 64 decide which bitmap word (and
+// which bit of it) the old arrays end on.
+func OldShape(keys []string) (nodeCnt, lastInner, lastStep, lastLeaf int32) {
+	t := buildOld(keys)
+	last := func(l []int32) int32 {
+		if len(l) == 0 {
+			return -1
+		}
+		return l[len(l)-1]
+	}
+	return t.nodeCnt, last(t.childIdx), last(t.stepIdx), last(t.leafIdx)
+}
